@@ -38,6 +38,10 @@ var hashValues = [][3]string{
 	{`{"c":"a\u0001b","\u001b":"\u0000","e":"\u000e\u001f","n":[1e-6,1e21,1e-7,999999999999999900000,295147905179352830000]}`,
 		`{"n":[0.000001,1000000000000000000000,0.0000001,999999999999999868928,295147905179352825856],"e":"\u000E\u001F","\u001B":"\u0000","c":"a\u0001b"}`,
 		`{"c":"a\u0002b","\u001b":"\u0000","e":"\u000e\u001f","n":[1e-6,1e21,1e-7,999999999999999900000,295147905179352830000]}`},
+	// numbers spelled with more digits than any shortest form, \u escapes of Latin-1 characters
+	{`{"n":[1e24,100000,1e-27,1.0000000000000002,9007199254740994],"s":"café ÿ"}`,
+		`{"s":"caf\u00e9 \u00FF","n":[1000000000000000000000000,1.0000000000000000000000e5,0.000000000000000000000000001,1.00000000000000011102230246251565404236316680908203126,9007199254740993.0000001]}`,
+		`{"n":[1e24,100000,1e-27,1.0000000000000002,9007199254740994],"s":"cafe ÿ"}`},
 	// member names that need escaping, next to names on either side of the backslash (0x5C) they are escaped with
 	{`{"\"q\"":1,"A":2,"\n":3,"\t":4,"\\":5,"a":6,"]":7,"[":8,"1":9,"\u0000":10,"\\n":11,"^":12,"\u007f":{"\"":1,"!":2,"#":3}}`,
 		`{"\u007f":{"#":3,"!":2,"\u0022":1},"^":12,"\u005cn":11,"\u0000":10,"1":9,"[":8,"]":7,"a":6,"\u005c":5,"\u0009":4,"\u000a":3,"A":2,"\u0022q\u0022":1}`,
